@@ -388,11 +388,18 @@ class BuiltinModelLoaderGen(ModelLoaderGen):
             namer = state
 
         if not namer.path and self._debug_trail == DebugTrail.ALL:
+            # errors of the items looked up before the type of the root turned out to be bad are kept
             state.builder(
                 f"""
+                errors.append({namer.with_trail(bad_type_load_error)})
+                if has_unexpected_error:
+                    raise CompatExceptionGroup(
+                        f'while loading model {{model_identity}}',
+                        [render_trail_as_note(e) for e in errors],
+                    )
                 raise AggregateLoadError(
                     f'while loading model {{model_identity}}',
-                    [render_trail_as_note({namer.with_trail(bad_type_load_error)})],
+                    [render_trail_as_note(e) for e in errors],
                 )
                 """,
             )
